@@ -117,6 +117,28 @@ def unit_alpha(a):
     return stats
 
 
+def unit_two_columns(a):
+    """exhaustive interplay of two columns over a tiny alphabet: values that contain the other column's placeholder,
+    duplicate headers, headers made of angle brackets"""
+    stats = Stats()
+    hs = ["a", "b", "", "<", ">", "<a>", "a>", "<b", "ab"]
+    vs = ["", "x", "<a>", "<b>", "<", ">", "a", "<<a>>", "\\", "$1"]
+
+    def gen():
+        n = 0
+        for h1 in hs:
+            for h2 in hs:
+                for v1 in vs:
+                    for v2 in vs:
+                        n += 1
+                        if n % a["nshards"] != a["shard"]:
+                            continue
+                        yield {"sub": "interp", "headers": [h1, h2], "values": [v1, v2],
+                               "templates": ["<%s>" % h1, "<%s> <%s>" % (h2, h1), "<<%s>>" % h2, "x", "<%s><%s" % (h1, h2)]}
+    sweep(stats, gen(), check_interp)
+    return stats
+
+
 TXT = st.one_of(st.sampled_from(ALPHABET + ["a", "b", "<a>", "<b>", "\\1", "\\g<0>", "$1", "\n", " ", "é", "\U0001F600", "\\"]),
                 st.characters(blacklist_categories=["Cs"]))
 st_word = st.lists(TXT, max_size=4).map("".join)
@@ -157,7 +179,7 @@ def replay(case, stats):
     if case["sub"] == "reuse":
         from .textdocs_impl import proj_c09
         return pc.check_reuse(case, stats, proj_c09, "C09 projection of the pickles")
-    if case["sub"] == "text":
+    if case["sub"] in ("text", "rawtext"):
         from . import textdocs
         return textdocs.check_text(case, stats, "C09")
     return check_interp(case, stats)
@@ -167,6 +189,7 @@ def run(ctx):
     q = ctx.quick
     ns = 16
     ctx.units("alphabet-exhaustive", unit_alpha, [{"shard": i, "nshards": ns, "sample": 0, "seed": ctx.seed} for i in range(ns)], procs=ns)
+    ctx.units("two-columns-exhaustive", unit_two_columns, [{"shard": i, "nshards": ns} for i in range(ns)], procs=ns)
     ctx.units("unicode-hypothesis", unit_hyp, [{"n": 1050 if q else 8000, "seed": ctx.seed, "shard": i} for i in range(8 if q else 16)], procs=16)
     ctx.units("compiler-reuse", unit_reuse, [{"n": 450 if q else 4000, "seed": ctx.seed, "shard": i} for i in range(8 if q else 16)], procs=16)
     from . import textdocs
